@@ -179,6 +179,11 @@ pub trait Engine: Sync {
     /// `class` is the classified abort kind. None = not this property's business.
     fn abort_is_violation(&self, body: &serde_json::Value, class: &str) -> bool;
     fn size_of(&self, body: &serde_json::Value) -> usize;
+    /// A body tracked by a part of a composite engine while run `idx` executed, in the form
+    /// `replay` expects.
+    fn wrap_tracked(&self, _idx: u64, body: serde_json::Value) -> serde_json::Value {
+        body
+    }
 }
 
 // ------------------------------------------------------------------------------------------
@@ -416,8 +421,8 @@ fn locate_abort(engine: &dyn Engine, tier: Tier, seed: u64, start: u64, count: u
     let info = classify_abort(&out.status, &stderr);
     let txt = std::fs::read_to_string(&t2).unwrap_or_default();
     // engines write "B <json>" lines: each one is a complete explicit body up to the step about to run
-    let body = txt.lines().rev().find_map(|l| l.strip_prefix("B ").and_then(|x| serde_json::from_str(x).ok()));
-    Ok((run, body, info))
+    let body: Option<serde_json::Value> = txt.lines().rev().find_map(|l| l.strip_prefix("B ").and_then(|x| serde_json::from_str(x).ok()));
+    Ok((run, body.map(|b| engine.wrap_tracked(run, b)), info))
 }
 
 /// Run an explicit case in a child process. Ok(None) = passes, Ok(Some(fail)) = fails.
